@@ -158,10 +158,10 @@ def build(repo, workdir, tus=TUS, jobs=14):
     for name, sig, body in dispatch:
         if name not in funcs:
             out.append('/* R5 dispatcher */\n' + sig + '\n' + body)
-            meta['funcs'][name] = {'file': '(generated dispatcher)', 'line': 0, 'sha256': '', 'generated': True}
+            meta['funcs'][name] = {'file': '(generated dispatcher)', 'line': 0, 'sha256': '', 'generated': True, 'sig': sig}
     for name, f in funcs.items():
         out.append('/* %s:%d %s */\n%s\n%s\n%s' % (f['file'], f['line'], f['sha256'], f['sig'], f['contract'], f['body']))
-        meta['funcs'][name] = {'file': f['file'], 'line': f['line'], 'sha256': f['sha256'], 'generated': bool(f.get('generated')),
+        meta['funcs'][name] = {'file': f['file'], 'line': f['line'], 'sha256': f['sha256'], 'generated': bool(f.get('generated')), 'sig': f['sig'],
                                'in_place_contract': bool(f['contract'])}
     text = '\n\n'.join(out) + '\n'
     cpath = os.path.join(workdir, 'wencry.c')
